@@ -43,7 +43,7 @@ func init() {
 func init() {
 	registerProperty(&Property{
 		ID:          "C06",
-		Rules:       []string{"escape", "fragment-disjoint", "map-order", "total-order", "encode-readonly", "name-verbatim", "ok-before-compare"},
+		Rules:       []string{"escape", "fragment-disjoint", "map-order", "total-order", "encode-readonly", "name-verbatim", "ok-before-compare", "encode-errflow"},
 		Explanation: "Decides the structural conditions of well-formed, collision-free, deterministic encoding: in every function reachable from a MarshalJSON method, whatever is written to an output buffer or returned as bytes is a constant, an encoder result (json.Marshal, MarshalJSON, strconv quoting, ConcatJSON of such) or a constant package table (escape); fragments concatenated into one object have pairwise disjoint tagged names, no tagged name enters the x- / path key space, user-keyed maps pass a constant-prefix filter, and Schema.ExtraProps is only filled after every tagged name, $ref, $schema and x- key has been removed (fragment-disjoint); a range over a map only feeds another map or a slice sorted before use (map-order); sort comparators break ties (total-order). name-verbatim: encoders store map keys of the model into the output under the key itself, not a rewriting of it. ok-before-compare: in the sort comparator a rank obtained with an ok flag is compared only where the flag is known true (decided by truth table over the flags), so the placeholder of an absent x-order never takes part in the order.",
 		NotCovered:  "validity of free-form payload encoding (encoding/json), byte-identity across runs as an observed fact, duplicate keys arising from case-insensitive matching in encoding/json's decoder",
 	})
@@ -124,7 +124,7 @@ func init() {
 func init() {
 	registerProperty(&Property{
 		ID:          "C18",
-		Rules:       []string{"load-once", "canon-key", "globals", "root-registered", "loader-shares-state", "id-once", "switch-on-follow"},
+		Rules:       []string{"load-once", "canon-key", "globals", "root-registered", "loader-shares-state", "id-once", "switch-on-follow", "load-only-needed"},
 		Explanation: "Transparency of results is value-level and not decided. Decided: the document loader (a func-typed field of the resolver context, found by role) is called at exactly one site, which is the field's only reader; that call is reachable only on the miss branch of a cache lookup; lookup, loader call and cache fill use one key variable assigned once from normalizeBase; every successful return after the load (go/cfg) has stored the decoded document under that key (load-once). Every other cache Get/Set uses a key produced by the normaliser, with the fragment cleared (canon-key), so 'already present in the supplied cache' is decided on the key the loader would be called with. The default cache is a clone of the built-in one (globals).",
 		NotCovered:  "that results are identical with and without a cache (values); the behaviour of caller-supplied cache implementations",
 	})
@@ -139,7 +139,7 @@ func init() {
 func init() {
 	registerProperty(&Property{
 		ID:          "C10",
-		Rules:       []string{"entry-wiring", "opts-immutable", "root-readonly", "visit", "cut-check", "root-registered", "opts-copy-complete", "id-once", "factory-keeps-options"},
+		Rules:       []string{"entry-wiring", "opts-immutable", "root-readonly", "visit", "cut-check", "root-registered", "opts-copy-complete", "id-once", "factory-keeps-options", "chain-ref-absolute"},
 		Explanation: "Sibling cross-check of the exported entry points: every Expand*/Resolve* function that builds a loader does so through the loader factory with a fresh context, with options that are either the clone of the caller's or a literal based on the pseudo-root location, passes to the expander family as base path the RelativeBase of those very options, and - for the *WithRoot / ExpandSchema variants - registers the root through the pseudo-root helper in the same cache value the loader receives, for the same root (entry-wiring). The caller's *ExpandOptions flows only into the cloner, which copies by value and never writes through its parameter (opts-immutable). The root and cached documents are only read (root-readonly). Because all entry points reach the same family members, visit and cut-check (completeness, termination mechanism) hold for each. factory-keeps-options: the loader factory works on the options value it was handed (entry points read the base back from it). id-once:registers-always: the id-scoped registration does not depend on what the cache already holds.",
 		NotCovered:  "agreement of results between entry points (values); aliasing between the element and the root when the caller shares storage",
 	})
